@@ -109,6 +109,8 @@ type world struct {
 	ctx     histCtx
 	rnd     *rand.Rand
 	tokens  map[string]string // jti -> token of accepted registrations (for exact duplicates)
+	cfg     string            // configuration shared by S and C
+	sAddr   string            // S's public address
 	// epoch of S at C's last poll
 	cPolledEpoch int
 }
@@ -1006,6 +1008,9 @@ func (w *world) evRace(pre bool) {
 		w.r.Count("race_episodes_not_steered", 1)
 		inter = "unsteered:" + inter
 	} else {
+		if w.id < 2 && w.r.Get("race_episodes_steered") < 2 {
+			w.r.Sample(map[string]any{"world": w.id, "racing_episode": inter, "registrations_in_window": inWindow})
+		}
 		w.r.Count("race_episodes_steered", 1)
 		w.r.Count("registrations_inside_get_window", inWindow)
 		w.r.Distinct("interleavings", inter)
@@ -1283,7 +1288,7 @@ func TestCheck(t *testing.T) {
 	r.Require(r.Pick(150, 1500), r.Pick(60, 300))
 	r.Assume("SQLite with a single connection: database transactions are serialised; row-lock behaviour of other engines is not exercised")
 	r.Assume("expiry is virtual: presentation_expiration is aged by SQL in the server's table and in the client's copy; the JWT exp claim itself is not in the past")
-	r.Assume("a server reset is produced by emptying the service's rows and seed in the server's database (the state of a fresh database), not by reinstalling the node")
+	r.Assume("a server reset is produced by emptying the service's rows and seed in the server's database (the state of a fresh database); once per server/client pair the server node is really reinstalled on an empty data directory")
 
 	worlds := r.Pick(4, 8)
 	perWorld := r.Pick(8, 50) // 32 / 400 histories
@@ -1291,15 +1296,25 @@ func TestCheck(t *testing.T) {
 	for i := 0; i < worlds; i++ {
 		ws = append(ws, newWorld(t, r, i))
 	}
-	var wg sync.WaitGroup
-	for _, w := range ws {
-		wg.Add(1)
-		go func(w *world) {
-			defer wg.Done()
-			w.run(perWorld)
-		}(w)
+	phase := func(from, to int) {
+		var wg sync.WaitGroup
+		for _, w := range ws {
+			wg.Add(1)
+			go func(w *world) {
+				defer wg.Done()
+				w.run(from, to)
+			}(w)
+		}
+		wg.Wait()
 	}
-	wg.Wait()
+	phase(0, perWorld/2)
+	// Reinstalling a server node writes process-wide settings of the node (one node per process in production): done while
+	// every other pair is idle, one pair after the other.
+	for _, w := range ws {
+		w.ctx = histCtx{idx: perWorld / 2}
+		w.evReinstall()
+	}
+	phase(perWorld/2, perWorld)
 	hits, epochs := 0, 0
 	for _, w := range ws {
 		w.lists.mu.Lock()
@@ -1330,10 +1345,12 @@ func newWorld(t *testing.T, r *ev.Run, id int) *world {
 	}
 	t.Cleanup(func() { os.RemoveAll(dir) })
 	sAddr := freeAddr()
+	w.sAddr = sAddr
 	if err := writeDefinitions(dir, "http://"+sAddr, w.svc, w.open); err != nil {
 		r.Fatalf("definitions: %v", err)
 	}
 	cfg := "discovery:\n  definitions:\n    directory: " + dir + "\n  client:\n    refresh_interval: 0s\n"
+	w.cfg = cfg
 	w.s = node.Start(t, node.Options{Config: cfg, Env: map[string]string{
 		"NUTS_HTTP_PUBLIC_ADDRESS": sAddr, "NUTS_URL": "http://" + sAddr, "NUTS_DISCOVERY_SERVER_IDS": w.svc + "," + w.open}})
 	w.c = node.Start(t, node.Options{Config: cfg})
@@ -1394,12 +1411,12 @@ func newWorld(t *testing.T, r *ev.Run, id int) *world {
 	return w
 }
 
-func (w *world) run(histories int) {
+func (w *world) run(from, to int) {
 	r := w.r
 	allDefects := defects()
 	eventsPer := 25
-	defectIdx := w.id * 5
-	for h := 0; h < histories; h++ {
+	defectIdx := w.id*5 + from*3
+	for h := from; h < to; h++ {
 		w.ctx = histCtx{idx: h}
 		var kinds []string
 		// directed openings (seeded): a reset overtaken by registrations before the client polls again; a reset with the first registrations racing the poll
@@ -1508,6 +1525,26 @@ func (w *world) resetOvertake() {
 	w.checkServer("reset-overtake/registered", true)
 	w.converge("reset-overtake")
 	w.r.Count("scenario_reset_overtake", 1)
+}
+
+// evReinstall: the server node is stopped and started again on an empty data directory (same addresses, same definitions)
+// while C keeps its copy: the real thing the SQL reset stands for.
+func (w *world) evReinstall() {
+	internal := strings.TrimPrefix(w.s.Internal, "http://")
+	w.s.Stop()
+	w.s = node.Start(w.t, node.Options{Config: w.cfg, Env: map[string]string{
+		"NUTS_HTTP_PUBLIC_ADDRESS": w.sAddr, "NUTS_HTTP_INTERNAL_ADDRESS": internal, "NUTS_URL": "http://" + w.sAddr, "NUTS_DISCOVERY_SERVER_IDS": w.svc + "," + w.open}})
+	w.sdb = node.Engine[storage.Engine](w.s).GetSQLDatabase()
+	w.m.reset()
+	w.ctx.hadReset = true
+	w.r.Count("events_server_reinstalled", 1)
+	w.note("server reinstalled on an empty database (epoch %d)", w.m.epoch)
+	w.checkServer("reinstall", true)
+	for _, s := range w.subj {
+		w.evRegister(s)
+	}
+	w.checkServer("reinstall/registered", true)
+	w.converge("reinstall")
 }
 
 // resetThenRace: reset, the client learns about the empty list, then the first registrations of the new seed race its poll.
